@@ -39,6 +39,7 @@ class DevStream(object):
         self.host_closed = False       # host sent CLSE
         self.refused = False
         self.written = []              # payloads of device WRTEs put on the wire, in order
+        self.delivered = 0             # how many of them the host has read completely off the transport
         self.acked = 0                 # host OKAYs received for them
         self.service = None
         self.owner = None              # actor that sent the OPEN
@@ -52,7 +53,7 @@ class AuthPlan(object):
     """What the device does during the handshake."""
 
     def __init__(self, require=False, verify=None, accept_pubkey=True, pubkey_delay=0.0, bad_challenge_at=None,
-                 strays=(), challenge_arg0=wire.AUTH_TOKEN, silent_at=None, rechallenge_after_pubkey=0):
+                 strays=(), challenge_arg0=wire.AUTH_TOKEN, silent_at=None, rechallenge_after_pubkey=0, answer_word=None):
         self.require = require
         self.verify = verify or (lambda token, sig: False)   # True -> signature accepted
         self.accept_pubkey = accept_pubkey
@@ -61,7 +62,8 @@ class AuthPlan(object):
         self.strays = list(strays)                            # packets (cmd,arg0,arg1,payload) sent before the first answer
         self.challenge_arg0 = challenge_arg0
         self.silent_at = silent_at                            # index of the host packet after which the device says nothing
-        self.rechallenge_after_pubkey = rechallenge_after_pubkey  # AUTH(TOKEN) packets sent right after the public key arrived (adbd does this while the user has not confirmed)
+        self.rechallenge_after_pubkey = rechallenge_after_pubkey
+        self.answer_word = answer_word                        # the device answers the host's CNXN with a well-formed packet of this (other) command word, e.g. STLS  # AUTH(TOKEN) packets sent right after the public key arrived (adbd does this while the user has not confirmed)
 
 
 class SyncPlan(object):
@@ -84,6 +86,8 @@ class SyncPlan(object):
         self.wrte_cap = None   # max WRTE payload (host's maxdata by default)
         self.hold_fail = False
         self.die_on = set()        # device paths: the sync service dies (CLSE, no reply) when a STAT/LIST/RECV request names one of them
+        self.list_trailer = {}     # path -> bytes appended after the DONE record of a listing
+        self.reply_first = False   # the OKAY that acknowledges a request WRTE is sent only after all reply data that request triggered (legal; needs early_reply)
         self.okay_message = b""    # payload carried by the sync OKAY status (its length field is "unused" but a device may fill it)
         self.early_reply = False   # replies may go on the wire BEFORE the OKAY that acknowledges the request WRTE (legal per protocol.txt; adbd itself never does it)
 
@@ -141,6 +145,7 @@ class SyncPlan(object):
         for mode, size, mtime, name in self.lists.get(path, []):
             out += wire.sync_dent(mode, size, mtime, name)
         out += wire.sync_list_done()
+        out += self.list_trailer.get(path, b"")        # whatever the device sends after DONE does not belong to the listing
         return bytes(out)
 
     def recv_reply(self, path):
@@ -404,7 +409,10 @@ class SimDevice(object):
             self.auth_log.append(("host_cnxn", pkt.arg0, pkt.arg1, pkt.payload))
             for s in self.auth.strays:
                 self.conn.append(Item(s[0], s[3], arg0=s[1], arg1=s[2]))
-            if self.auth.require:
+            if self.auth.answer_word is not None:
+                self.auth_log.append(("dev_other_answer", self.auth.answer_word))
+                self.conn.append(Item(self.auth.answer_word, b"", arg0=0x01000000, arg1=0))
+            elif self.auth.require:
                 self._challenge()
             else:
                 self._send_cnxn()
@@ -546,7 +554,9 @@ class SimDevice(object):
             if st.dead or st.local in self.mute_streams:
                 continue
             if st.ctrl and (st.ctrl[0].ready_at is None or st.ctrl[0].ready_at <= now):
-                out.append((st.ctrl, st))
+                svc = st.service
+                if not (st.ctrl[0].cmd == "OKAY" and st.data and st.data[0].cmd == "WRTE" and isinstance(svc, SyncService) and svc.plan.reply_first and svc.plan.early_reply):
+                    out.append((st.ctrl, st))
             if st.data and (len(st.written) - st.acked < self.window or (self.early_close and st.data[0].cmd == "CLSE")):
                 it = st.data[0]
                 if st.okays_emitted >= it.min_okays and not it.hold:
@@ -614,7 +624,7 @@ class SimDevice(object):
                         self.conn.append(Item("CLSE", b"", arg0=st.remote, arg1=st.local, tag="noise"))
         pkt.index = self.emitted
         self.emitted += 1
-        self._emit(pkt, noise=(it.tag == "noise"))
+        self._emit(pkt, noise=(it.tag == "noise"), stream=st if (st is not None and it.cmd == "WRTE") else None)
         if st is not None and "phantom" in self.noise and self.rng.random() < 0.15:
             # packets for a stream this host never opened (another client's leftovers)
             ph_local = (st.local + 0x40000000 + self.rng.randrange(1000)) & wire.M32 or 77
@@ -626,7 +636,7 @@ class SimDevice(object):
             self._emit(ph, noise=True)
         return True
 
-    def _emit(self, pkt, noise=False):
+    def _emit(self, pkt, noise=False, stream=None):
         raw = wire.pack(pkt.cmd, pkt.arg0, pkt.arg1, pkt.payload)
         if self.before_emit is not None:
             rep = self.before_emit(pkt, raw)
@@ -636,7 +646,7 @@ class SimDevice(object):
         if self.monitor:
             self.monitor.dev_packet(self, pkt, noise)
         self.wirebuf += raw
-        self.wire_bounds.append([len(raw), len(raw)])
+        self.wire_bounds.append([len(raw), len(raw), stream])
 
     def inject(self, cmd, arg0, arg1, payload=b""):
         """Queue an arbitrary connection-level packet (noise / strays)."""
@@ -670,6 +680,8 @@ class SimDevice(object):
             if b[1] <= left:
                 left -= b[1]
                 self.wire_bounds.popleft()
+                if len(b) > 2 and b[2] is not None and not b[2].host_closed:
+                    b[2].delivered += 1          # the host has read this WRTE completely (before its own CLSE: afterwards it may not answer any more)
             else:
                 b[1] -= left
                 left = 0
